@@ -256,6 +256,35 @@ class EditRun:
             c0 = op.get('code') or {}
             if o.get('pars') is True and str(c0.get('text', '')).lstrip().startswith('('):
                 flags.add('pars_true_with_parenthesized_source')
+            # region = the top-level statement that contains the target (whole program for Module-level list ops)
+            src_lines0 = self.root.src.split('\n')
+            if len(chain) > 1 and hasattr(chain[1], 'lineno'):
+                top = chain[1]
+                lo = (top.decorator_list[0].lineno if getattr(top, 'decorator_list', None) else top.lineno) - 1
+                region = src_lines0[max(0, lo - 1):top.end_lineno + 1]
+            else:
+                region = src_lines0
+            if any(l.rstrip().endswith('\\') for l in region):
+                flags.add('stmt_has_line_continuation')
+            code0 = op.get('code') or {}
+            if code0.get('form') not in (None, 'none') and code0.get('text') is not None:
+                a0 = harness_ast(code0.get('cat', 'expr'), code0['text'])
+                if a0 is not None and any(isinstance(n, ast.Starred) for n in ast.walk(a0)):
+                    flags.add('code_contains_starred')
+                if field is not None and str(field).startswith('_') and code0.get('cat'):
+                    from .ops import VIRTUAL_CAT, virtual_cat
+                    wantv = VIRTUAL_CAT.get(field) or virtual_cat(tgt)
+                    if wantv != code0.get('cat'):
+                        flags.add('code_cross_category')
+                if field is None and op.get('k') not in ('replace', 'remove', 'cut'):
+                    from .ops import default_field, field_cat
+                    df = default_field(tgt)
+                    if df and df.startswith('_'):
+                        from .ops import VIRTUAL_CAT, virtual_cat
+                        if (VIRTUAL_CAT.get(df) or virtual_cat(tgt)) != code0.get('cat'):
+                            flags.add('code_cross_category')
+                    elif df and field_cat(tgt, df) != code0.get('cat') and field_cat(tgt, df) != 'constant':
+                        flags.add('code_cross_category')
             src_lines = self.root.src.split('\n')
             for i, ln in enumerate(src_lines):
                 if ln.rstrip().endswith('\\') and '#' not in ln and (i + 1 >= len(src_lines) or not src_lines[i + 1].strip()):
